@@ -29,7 +29,7 @@ fn widen(e: Infallible) -> i64 {
 }
 
 fn ms(e: &SExp) -> Duration {
-  Duration::from_millis(e.nat() as u64)
+  crate::vtime::ticks(e.nat() as u64)
 }
 
 fn edge(e: &SExp) -> ThrottleEdge {
